@@ -10,3 +10,5 @@ import ScadVerif.Props.C07
 import ScadVerif.Props.C08
 import ScadVerif.Props.C04
 import ScadVerif.Props.C05
+import ScadVerif.Props.C14
+import ScadVerif.Props.C16
